@@ -92,6 +92,28 @@ def run(tier):
     # every spelling of integer literals, digit-less prefixes included (invalid lexemes must be rejected)
     for sp in ["0b", "0x", "0b_", "0x_", "0bu8", "0xu8", "0b2", "0xg", "0b1010_1010", "0x_FF", "1_000", "0_", "00", "0b0", "0x0", "1__0u8", "0b1u128", "0xFFi16", "12ab", "0bar"]:
         cases.append(("bi%d" % kb, ("fn main(){ var x = %s; var y = %s; }\n" % (sp, sp)).encode(), "literal-spellings")); kb += 1
+    # every hexadecimal digit in both cases at every place of a \u{...} escape and of a 0x literal (the digit tables of
+    # the second-generation lexer; well-formed ones must be accepted, the lexer model decides the others)
+    HEX = "0123456789abcdefABCDEF"
+    for d_ in HEX:
+        for esc in (d_, d_ * 2, d_ + "00", "1" + d_ + "00", d_ + "000", "C" + d_ + "00", "c" + d_ + "0" + d_, "10" + d_ * 4, "0" + d_ * 4):
+            cid = "hx%d" % kb; kb += 1
+            cases.append((cid, ('const S: []char8 = "a\\u{%s}b";\n' % esc).encode(), "hex-digits"))
+            cp = int(esc, 16)
+            if cp <= 0x10FFFF and not (0xD800 <= cp <= 0xDFFF): valid.append(cid)
+        for lit in ("0x" + d_, "0x" + d_ * 2, "0x" + d_ * 16, "0x" + d_ * 32, "0x1" + d_ * 31, "0x" + d_ + "_" + d_, "0x0" + d_ * 32):
+            cid = "hx%d" % kb; kb += 1
+            cases.append((cid, ("const K: u128 = %s;\n" % lit).encode(), "hex-digits")); valid.append(cid)
+        cid = "hx%d" % kb; kb += 1
+        cases.append((cid, ("const C: char8 = '\\x4%s';\nconst S: []char8 = \"\\x%s%s\";\n" % (d_, "7" if d_ in "89abcdefABCDEF" else d_, d_)).encode(), "hex-digits")); valid.append(cid)
+    # a trailing comma closes every list that may have one (parameters, arguments, array and structure literals;
+    # the last member of a structure may also do without): well-formed, must be accepted
+    for tc in ["fn add(a: i32, b: i32,) -> i32\n{\n\treturn: a + b\n}\n", "extern fn puts(text: []char8,);\n", "fn add(a: i32, b: i32) -> i32\n{\n\treturn: a + b\n}\nfn main()\n{\n\tvar r = add(1, 2,);\n}\n",
+               "fn main()\n{\n\tvar a: [2]i32 = [1, 2,];\n}\n", "struct S\n{\n\tx: i32,\n\ty: i32,\n}\nfn main()\n{\n\tvar s = S { x: 1, y: 2, };\n}\n", "struct S\n{\n\tx: i32,\n\ty: i32\n}\n",
+               "fn id(a: i32,) -> i32\n{\n\treturn: a\n}\n", "word16 W\n{\n\tlo: u8,\n\thi: u8\n}\n", "pub extern fn f(a: &[]u8, b: [][2]i32,);\n", "fn g(a: i32,\n\tb: i32,\n)\n{\n}\n",
+               "fn main()\n{\n\tvar m: [2][2]i32 = [[1, 2,], [3, 4,],];\n\tvar r = f(g(1,), 2,);\n}\n"]:
+        cid = "tc%d" % kb; kb += 1; valid.append(cid)
+        cases.append((cid, tc.encode(), "trailing-commas"))
     # casts as operands of every binary operator (well-formed: must be accepted)
     for op_ in ("*", "/", "%", "+", "-"):
         for tmpl in ("y %s x as i64", "x as i64 %s y", "y %s x as i64 as i32", "y %s (x as i64)", "-x as i64 %s y"):
@@ -131,7 +153,7 @@ def run(tier):
     impl = C.run_harness("delta-total", payloads, ck.work + "/debug", timeout=3000)
     implr = C.run_harness("delta-total", payloads, ck.work + "/release", timeout=3000, binary=C.PVH_RELEASE)
     # the lexer model decides which inputs contain an invalid lexeme
-    prio = ("literal-spellings", "boundary-integers", "cast-operands", "unicode-strings")      # the deterministic families first
+    prio = ("literal-spellings", "boundary-integers", "cast-operands", "unicode-strings", "hex-digits", "trailing-commas")      # the deterministic families first
     small = [(c[0], c[1]) for c in sorted(cases, key=lambda c: 0 if c[2] in prio else 1) if len(c[1]) <= 4096 and c[2] != "tokens"][: (3500 if tier == "quick" else 60000)]
     model = C.run_model([("lex-delta", cid, b.hex() if b else "()") for cid, b in small], ck.work + "/lexmodel", timeout=3000)
     # node accounting: Model/DeltaNodes.v on the token kinds the real lexer produced
